@@ -485,6 +485,31 @@ def r04_8(run):
                    path=p_.describe(6))
 
 
+def r04_10(run):
+    """(a) once the password provider has answered, _do_password_authentication either refuses (raises - the chain then ends in
+    _auth_failed) or sends AUTHENTICATE with _bootstrap / _auth_failed chained: a silent return leaves the ready notification
+    unfired for ever.  (b) "is a password provider configured?" is asked of the value the caller gave: the constructor stores the
+    argument itself - a default stand-in (`password_function or (lambda: None)`) makes every protocol look configured, the password
+    leg is taken instead of NULL and fails with "No password available"."""
+    u = U(run, '_do_password_authentication')
+    g = cfg_of(u)
+    auth = g.nodes_where(lambda n: any(isinstance(a, ast.Call) and callee_attr(a) in ('authenticate', 'queue_command') for a in node_asts(n)))
+    run.floor('R04.10', 'AUTHENTICATE senders in _do_password_authentication', len(auth), 1)
+    r = g.reachable([g.entry], avoid=lambda n: n in auth, follow_exc=False)
+    quiet = [e for e in g.normal_exits() if e in r]
+    run.ob('R04.10', u, u.node, 'the password leg ends in AUTHENTICATE or in a refusal, never in a silent return', not quiet, slot='password-leg-decides',
+           message='_do_password_authentication can return without sending AUTHENTICATE and without raising: neither _bootstrap nor _auth_failed runs and the '
+                   'ready notification never fires')
+    ci = proto(run)
+    init = run.idx.find_method(ci, '__init__')
+    ws = writes_of(init, 'self.password_function')
+    run.floor('R04.10', 'assignments of self.password_function in __init__', len(ws), 1)
+    for st, v in ws:
+        run.ob('R04.10', init, st, 'the constructor stores the password provider it was given (None stays None)', isinstance(v, ast.Name) and v.id in init.params, slot='provider-stored-as-given',
+               message='__init__ stores %s as password_function: the "is a provider configured" tests are then true for everybody, and with HASHEDPASSWORD advertised '
+                       'the password leg is taken (and fails) where NULL should have been used' % src(v)[:50])
+
+
 def r04_5(run):
     ci = proto(run)
     sites = []
@@ -638,6 +663,7 @@ def r04_9(run):
 
 
 RULES = [
+    ('R04.10', 'the password leg always decides (AUTHENTICATE or refusal); the provider is stored as given', r04_10),
     ('R04.1', 'call-graph vocabulary: only PROTOCOLINFO/AUTHCHALLENGE/AUTHENTICATE reachable before _bootstrap; _bootstrap attached only behind AUTHENTICATE', r04_1),
     ('R04.2', 'exhaustive path/valuation enumeration of _do_authenticate (advertised methods x cookie read outcome x password function): preference and usability oracle', r04_2),
     ('R04.3', '_read_cookie refuses every length != 32 with a non-IOError (length ordering classes)', r04_3),
@@ -652,6 +678,8 @@ RULES = [
 from ..selftest import M  # noqa: E402
 F = 'txtorcon/torcontrolprotocol.py'
 MUTANTS = [
+    M('password-leg-silent-return', F, "        if not passwd:\n            raise RuntimeError(\"No password available.\")", "        if self._when_disconnected.has_fired():\n            return\n        if not passwd:\n            raise RuntimeError(\"No password available.\")", ['R04.10']),
+    M('provider-default-stand-in', F, "        self.password_function = password_function\n        \"\"\"If set, a callable", "        self.password_function = password_function or (lambda: None)\n        \"\"\"If set, a callable", ['R04.10']),
     M('token-line-ending-trimmed', F, "        phrase = b2a_hex(passphrase)", "        passphrase = passphrase.rstrip(b'\\r\\n')\n        phrase = b2a_hex(passphrase)", ['R04.9']),
     M('token-truncated', F, "        phrase = b2a_hex(passphrase)", "        phrase = b2a_hex(passphrase[:32])", ['R04.9']),
     M('password-coroutine-not-awaited', F, "            d.addCallback(maybe_coroutine)\n            d.addCallback(self._do_password_authentication)", "            d.addCallback(self._do_password_authentication)", ['R04.7']),
